@@ -303,7 +303,8 @@ func matchStartLoop(i bytecode.StartLoop, current_state *SearchEngineState) *Sea
 
 	inited := next_state.INITLOOPSTACK(i.Id, i.Name)
 	if !inited {
-		if next_state.CHECKZEROMATCHLOOP() {
+		// only an optional iteration has to consume something
+		if next_state.GETITERATIONSTEP() >= i.MinLoops && next_state.CHECKZEROMATCHLOOP() {
 			next_state.BACKTRACK()
 			return next_state
 		}
